@@ -115,6 +115,24 @@ def check(rep, F, tier, replay=None):
                     ok = fn.get("self_adt") == st[3][2] and fn["name"] in ("new", "new_from_prepared_fields") and not fn["impl_trait"]
                     if not ok:
                         rep.violation("SET-lit", "%s|%s" % (F.key(fid), H.short(st[3][2])), "%s constructs %s by struct literal outside its constructors: the vector / membership-set invariant is not established by guarded insertion" % (F.key(fid), H.short(st[3][2])), {"function": fid})
+    # SET-writer: what is written is the insertion-ordered vector, never the membership index
+    rep.rule("SET-writer", "the CBOR writer and the JSON writer of every set type (element vector + membership index) read the element vector and do not read the membership index: the index (BTreeSet / HashSet) iterates in sorted / arbitrary order, so a writer that walks it changes the order of inputs, reference inputs, collateral, signers ... - first-insertion order is what len / get / equality and a decoded transaction's original bytes follow")
+    from ruleutil import fields_read as _fr
+    n_w = 0
+    for aid, s_ in sets.items():
+        for fid, fn in F.fns.items():
+            if fn.get("self_adt") != aid or F.is_derived(fid) or fn["name"] != "serialize":
+                continue
+            if fn["impl_trait"] not in ("cbor_event::se::Serialize", "cbor_event::Serialize", "serde::Serialize", "serde::ser::Serialize"):
+                continue
+            n_w += 1
+            rep.inst("SET-writer")
+            rd = {f for (a, f) in _fr(F, fid, depth=2) if a == aid}
+            if s_["set"] in rd:
+                rep.violation("SET-writer", "%s|%s|reads-index" % (H.short(aid), fn["impl_trait"].split("::")[0]), "the %s writer of %s reads the membership index `%s` (fields read: %s): elements are written in the order of that index, not in first-insertion order - a decoded body with unsorted inputs no longer re-encodes to its own bytes" % (fn["impl_trait"], H.short(aid), s_["set"], sorted(rd)), {"function": fid})
+            elif s_["vec"] not in rd:
+                rep.violation("SET-writer", "%s|%s|no-vector" % (H.short(aid), fn["impl_trait"].split("::")[0]), "the %s writer of %s does not read the element vector `%s`" % (fn["impl_trait"], H.short(aid), s_["vec"]), {"function": fid})
+    rep.floor("writers of set types", 10, n_w)
     # ENTRY: readers go through add/from_vec
     rep.rule("SET-entry", "the CBOR and serde readers of each set type reach add / add_move / from_vec / extend of the same type (never assemble the fields themselves)")
     for aid, s in sets.items():
